@@ -60,7 +60,7 @@ package protocol
 //@ func (*Tunnel).Read
 //@   requires[C10] wf: t != nil && t.transportIn != nil
 //@   requires[C01] quiet: !#errSent && !#closeOK
-//@   assigns t.BytesReceived, t.LastSeen, #lastNow
+//@   assigns t.BytesReceived, t.LastSeen, #lastNow, #reads, #prevChunk, #lastChunk, #readFailed, #cur
 //@   nopanic[C10]
 
 // ---------------------------------------------------------------- packet builders and decoders
@@ -131,10 +131,27 @@ package protocol
 //@   loop 0 invariant even: 0 <= i && i & 1 == 0
 //@   nopanic[C10]
 
+//@ define framed(pt, n, msg, c0) = n == int(le32(#stream, c0 + 4)) && n >= 8 && pt == int(le16(#stream, c0)) && len(msg) == n - 8 && matches(msg, #stream, c0 + 8)
+
+// packet boundaries come from the length field of the stream, not from how the transport cut it (C08)
 //@ func readMessage
 //@   requires[C10] in != nil
 //@   requires[C01] quiet: !#errSent && !#closeOK
-//@   loop 0 invariant index: 0 <= index && index <= 4096
+//@   requires[C08] position: 0 <= #cur && #cur <= 0x10000000000 && 0 <= #reads && #reads <= 0x10000000000
+//@   assigns[C07] #reads, #prevChunk, #lastChunk, #readFailed, #cur
+//@   loop 0 invariant index: 0 <= index && index <= 4096 && len(buf) == 4096 && cap(buf) == 4096
+//@   loop 0 invariant[C08] whole: !fragment ==> #reads == old(#reads) && #cur == old(#cur)
+//@   loop 0 invariant[C08] partial: fragment ==> #reads == old(#reads) + 1 && 0 <= #lastChunk && #cur == old(#cur) + #lastChunk && index == ite(#lastChunk < 4096, #lastChunk, 4096) && matches(buf, #stream, old(#cur), index)
+//@   site readHeader requires[C08] window: (#reads == old(#reads) + 1 || #prevChunk <= 4096) ==> matches(arg0, #stream, old(#cur))
+//@   ensures[C08] oneRead: err == nil && #reads == old(#reads) + 1 && #cur - old(#cur) == n ==> framed(pt, n, msg, old(#cur))
+//@   ensures[C08] twoReadsInPlace: err == nil && #reads == old(#reads) + 2 && #prevChunk + #lastChunk <= 4096 && #cur - old(#cur) == n ==> framed(pt, n, msg, old(#cur))
+//@   ensures[C08] twoReadsRealloc: err == nil && #reads == old(#reads) + 2 && #prevChunk <= 4096 && #prevChunk + #lastChunk > 4096 && #cur - old(#cur) == n ==> framed(pt, n, msg, old(#cur))
+//@   ensures[C08] atMostTwoReads: #reads <= old(#reads) + 2
+//@   ensures[C08] unframeable: err == nil ==> n >= 8
+//@   ensures[C08] coalesced: err == nil && #reads == old(#reads) + 1 ==> #cur - old(#cur) == n
+//@   ensures[C08] tail: err == nil && #reads == old(#reads) + 2 ==> #cur - old(#cur) == n
+//@   ensures[C08] bigFirst: err == nil && #reads == old(#reads) + 2 && #prevChunk > 4096 ==> framed(pt, n, msg, old(#cur))
+//@   ensures[C08] complete: err != nil ==> #readFailed || int(le32(#stream, old(#cur) + 4)) < 8
 //@   nopanic[C10]
 
 // ---------------------------------------------------------------- relay
@@ -177,7 +194,7 @@ package protocol
 //@       && !#errSent && !#closeOK
 //@   assigns[C07] p.state, p.tunnel.rwc, p.tunnel.TargetServer, p.tunnel.BytesSent, p.tunnel.BytesReceived, p.tunnel.LastSeen, p.gw.IdleTimeout
 //@   assigns[C07] p.tunnel.RemoteAddr, region(identity.User.userName) at p.tunnel.User
-//@   assigns #errSent, #closeOK, #hsOK, #tcOK, #taOK, #ccOK, #cookieOK, #hostOK, #hostChecked, #reqServer, #reqPort, #dials, #dialAddr, #backend, #fwd, #lastType, #lastStatus, #relayed, #connWrite, #connWriteTo, #connWrites, #lastNow
+//@   assigns #errSent, #closeOK, #hsOK, #tcOK, #taOK, #ccOK, #cookieOK, #hostOK, #hostChecked, #reqServer, #reqPort, #dials, #dialAddr, #backend, #fwd, #lastType, #lastStatus, #relayed, #connWrite, #connWriteTo, #connWrites, #lastNow, #reads, #prevChunk, #lastChunk, #readFailed, #cur
 //@   ensures[C01] once: #dials <= 1 && #fwd <= 1
 //@   ensures[C01] errorEnds: #errSent ==> result != nil
 //@   ensures[C01] cleanEnd: result == nil ==> #closeOK
